@@ -285,7 +285,16 @@ func optNat(v int64) string {
 
 func specKey(sp Spec) string {
 	if sp.Kind == "leak" {
-		return fmt.Sprintf("leak sink=%s history=%s cells=%d", sp.Sink, strings.Join(sp.History, ","), sp.Cells)
+		var parts []string
+		for i := 0; i < len(sp.History); {
+			j := i
+			for j < len(sp.History) && sp.History[j] == sp.History[i] {
+				j++
+			}
+			parts = append(parts, fmt.Sprintf("%sx%d", sp.History[i], j-i))
+			i = j
+		}
+		return fmt.Sprintf("leak sink=%s history=%s cells=%d", sp.Sink, strings.Join(parts, ","), sp.Cells)
 	}
 	k := fmt.Sprintf("hang sink=%s renderer=%s target=%s", sp.Sink, sp.Renderer, sp.Target)
 	if sp.Target == "rlimit" {
@@ -410,7 +419,7 @@ func checkC12(c *Ctx, r *Report) error {
 			{tN - 1, 1, tN + 1, 0, 0, 7},  // straddling
 			mcLike(1500), rep(tN, 12), {}, // long, and nothing at all
 		}
-		scripts2 := [][]int{rep(lN, 3), {100}, rep(1, 2*lN+40), mcLike(700), {}}
+		scripts2 := [][]int{rep(lN, 3), {100}, rep(1, 2*lN+40), mcLike(700), rep(lN, 24), {}}
 		add := func(sp Spec) { sp.Kind = "fault"; specs = append(specs, sp) }
 		for _, w := range scripts3 {
 			for _, tg := range []string{"ok", "devfull", "nodir", "isdir"} {
@@ -604,7 +613,7 @@ func checkC12(c *Ctx, r *Report) error {
 					strings.ToUpper(sp.Sink), targetPath(&Spec{Target: sp.Target, Sink: sp.Sink, Dir: "<dir>"}, 0), timeout, res.Blocked, total, len(w)), clean)
 			}
 			if id%37 == 1 {
-				r.Sample(map[string]interface{}{"spec": clean, "returned": res.Returned, "ms": res.Ms, "count": res.Count, "file_size": res.FileSize})
+				r.Sample(map[string]interface{}{"case": key, "returned": res.Returned, "ms": res.Ms, "count": res.Count, "file_size": res.FileSize})
 			}
 		case "leak":
 			r.Case(stratum, key, true)
@@ -638,7 +647,7 @@ func checkC12(c *Ctx, r *Report) error {
 			if last > mid || last-res.Base > 2*res.NumCPU+8 {
 				r.Violate(key, fmt.Sprintf("goroutines keep growing with the number of renders: %d before, then %v (NumCPU=%d)", res.Base, res.Goroutines, res.NumCPU), clean)
 			}
-			r.Sample(map[string]interface{}{"spec": clean, "base": res.Base, "goroutines": res.Goroutines, "ncpu": res.NumCPU})
+			r.Sample(map[string]interface{}{"case": key, "base": res.Base, "goroutines": res.Goroutines, "ncpu": res.NumCPU})
 		}
 	}
 	if err := cf.Write(c.Out); err != nil {
